@@ -945,6 +945,27 @@ impl HybSim {
         }
     }
 
+    /// issue wait() without pumping io; poll with `raw_task_done`
+    pub fn raw_wait_issue(&mut self) -> usize {
+        let store = self.cache().storage().clone();
+        self.spawn_task(TaskKind::Wait, async move {
+            store.wait().await;
+            TaskOut::Unit(Ok(()))
+        })
+    }
+
+    pub fn raw_task_done(&mut self, t: usize) -> bool {
+        let _ = self.collect();
+        self.tasks[t].resolved_at.is_some()
+    }
+
+    pub fn raw_complete_io(&mut self, i: usize) -> bool {
+        let ok = self.disk.complete(i);
+        self.settle();
+        let _ = self.collect();
+        ok
+    }
+
     pub fn raw_settle(&mut self) {
         self.settle();
         let _ = self.collect();
